@@ -91,6 +91,9 @@ pub enum Dev {
     RepeatNextBucket,
     /// repeat until the allowance is used up, reload the (unchanged) policy, repeat again
     RepeatAfterReload,
+    /// the allowlisted destination is removed again (in one request together with an address that
+    /// was never listed) and the signer restarted before the transaction is presented
+    AllowRemovedRestart,
 }
 
 fn dev_kind(d: &Dev) -> String {
@@ -188,6 +191,7 @@ fn run_case(case: &Case) -> Res {
     let mut version = 2;
     let mut nb_target: Option<u64> = None;
     let mut repeat = 0u8;
+    let mut allow_removed = false;
     for d in &case.devs {
         match d {
             Dev::ReplaceOut(i, k) =>
@@ -228,6 +232,7 @@ fn run_case(case: &Case) -> Res {
             Dev::RepeatLater => repeat = 2,
             Dev::RepeatNextBucket => repeat = 3,
             Dev::RepeatAfterReload => repeat = 4,
+            Dev::AllowRemovedRestart => allow_removed = true,
         }
     }
     if r.skipped {
@@ -257,6 +262,26 @@ fn run_case(case: &Case) -> Res {
             return r;
         }
     }
+    let (w, node) = if allow_removed {
+        if outputs.iter().any(|o| o.k == OutK::AllowlistedWithPath) {
+            r.skipped = true;
+            r.class = "not-applicable".into();
+            return r;
+        }
+        let n2 = node.clone();
+        let gone = vec![foreign_address(1, net), foreign_address(9, net)];
+        if !call(move || n2.remove_allowlist(&gone).map_err(|e| status_kind(&e))).is_ok() {
+            r.skipped = true;
+            r.class = "allowlist-removal-failed".into();
+            return r;
+        }
+        drop(node);
+        let w = w.restart();
+        let node = w.node.clone();
+        (w, node)
+    } else {
+        (w, node)
+    };
     // channels that are to be funded: created first (keys), set up once the txid is known
     let mut chans: Vec<(u64, FundK, Cp)> = vec![];
     for o in &outputs {
@@ -304,7 +329,7 @@ fn run_case(case: &Case) -> Res {
                 let rf = if case.allow >= 1 { RefOut::Beneficial(val as u128) } else { RefOut::Unknown };
                 (s, DerivationPath::master(), rf)
             }
-            OutK::Allowlisted => (foreign_script(1), DerivationPath::master(), RefOut::Beneficial(val as u128)),
+            OutK::Allowlisted => (foreign_script(1), DerivationPath::master(), if allow_removed { RefOut::Unknown } else { RefOut::Beneficial(val as u128) }),
             OutK::AllowlistedWithPath => (foreign_script(1), wallet_path(3), RefOut::Beneficial(val as u128)),
             OutK::Xpub => (xpub_script(4), wallet_path(4), if case.allow >= 2 { RefOut::Beneficial(val as u128) } else { RefOut::Mismatch }),
             OutK::XpubWrongPath => (xpub_script(4), wallet_path(5), RefOut::Mismatch),
@@ -750,6 +775,7 @@ fn alphabet(c: &Case) -> Vec<Dev> {
     v.push(Dev::RepeatLater);
     v.push(Dev::RepeatNextBucket);
     v.push(Dev::RepeatAfterReload);
+    v.push(Dev::AllowRemovedRestart);
     v
 }
 
